@@ -399,6 +399,103 @@ def run(world, rep, tier, only=None):
             rep.ob("C11.g", site(f, "%s bitmap marked dirty where UNINIT flags are dropped#%d" % (what, i)), ok,
                    "`%s` (line %d) lies behind, or is always followed by, %s()" % (n.text()[:30], n.line, mk))
 
+    # ------------------------------------------------------------------ C11.j the journal's clusters are given back once each
+    # A block walk visits every block; with bigalloc several of them share a cluster.  A callback that releases what it
+    # visits changes the summary counters through ext2fs_block_alloc_stats*() only (which counts clusters) and does so
+    # behind a test that lets only one block of a cluster through (the bitmap, or a comparison of cluster numbers).
+    COUNTERS = ("ext2fs_free_blocks_count_add", "ext2fs_bg_free_blocks_count_set", "ext2fs_free_blocks_count_set")
+    n_cb = 0
+    for f in prog.fns_in_file(TF):
+        for w_ in calls_to(f, "ext2fs_block_iterate3", "ext2fs_block_iterate2"):
+            for a in w_.ev["x"].get("a", []):
+                a0 = T.strip(a)
+                if not (isinstance(a0, dict) and a0.get("k") == "fn"):
+                    continue
+                for cb in prog.lookup(a0["n"], f):
+                    rel = calls_to(cb, "ext2fs_block_alloc_stats2", "ext2fs_block_alloc_stats") + \
+                        [n for n in calls_to(cb, "ext2fs_unmark_block_bitmap2") if "block_map" in T.field_names(arg(n, 0) or {})]
+                    if not rel:
+                        continue
+                    n_cb += 1
+                    byhand = calls_to(cb, *COUNTERS)
+                    rep.ob("C11.j", site(cb, "summary counters changed through the accounting routine only"), not byhand,
+                           "no direct %s in a releasing block-walk callback: %s" % ("/".join(COUNTERS[:2]), [n.line for n in byhand]))
+                    for i, r_ in enumerate(rel):
+                        once = any(t is not None and (any(cc.get("fn") in ("ext2fs_test_block_bitmap2", "ext2fs_fast_test_block_bitmap2")
+                                                          for cc in T.calls(a_)) or
+                                                      any("cluster" in (v or "").lower() for v in T.vars_in(a_)) or
+                                                      {"EXT2FS_B2C", "EXT2FS_CLUSTER_MASK", "EXT2FS_CLUSTER_RATIO"} & T.macros(a_))
+                                   for t, a_ in control_lits(cb, r_))
+                        rep.ob("C11.j", site(cb, "a cluster is released with one of its blocks only#%d" % i), once,
+                               "`%s` lies behind a test of the bitmap / of the cluster number" % r_.text()[:40])
+    rep.floor("C11.j releasing block-walk callbacks in tune2fs.c", n_cb, 1)
+
+    # ------------------------------------------------------------------ C11.k no orphan file without a journal
+    # The kernel and e2fsck accept an orphan file only on a file system with a journal.  The journal is taken away only
+    # when the orphan_file feature is off (or goes in the same command), and an orphan file is created only behind a
+    # test of the journal feature - also when it is asked for through -E orphan_file_size.
+    def feat_lit(a_, name):
+        return any(cc.get("fn") == name for cc in T.calls(a_))
+    ufs = prog.fn("update_feature_set", TF)
+    rmj = calls_to(ufs, "remove_journal_inode", "remove_journal_device")
+    cre = [(f, n) for f in prog.fns_in_file(TF) for n in calls_to(f, "ext2fs_create_orphan_file")]
+    rep.floor("C11.k journal removal / orphan file creation sites", min(len(rmj), len(cre)), 1)
+    for i, n in enumerate(rmj):
+        ok = any(t is False and feat_lit(a_, "ext2fs_has_feature_orphan_file") for t, a_ in control_lits(ufs, n))
+        rep.ob("C11.k", site(ufs, "journal removed only without orphan_file#%d" % i), ok,
+               "`%s` lies on the `!ext2fs_has_feature_orphan_file()` side of a test" % n.text()[:30])
+    for i, (f, n) in enumerate(cre):
+        ok = any(t is True and feat_lit(a_, "ext2fs_has_feature_journal") for t, a_ in control_lits(f, n))
+        rep.ob("C11.k", site(f, "orphan file created only with a journal#%d" % i), ok,
+               "ext2fs_create_orphan_file() lies on the `ext2fs_has_feature_journal()` side of a test")
+
+    # ------------------------------------------------------------------ C11.l a request for e2fsck stands
+    # request_fsck_afterwards() clears EXT2_VALID_FS and tells the user to run e2fsck; no later step of the same run
+    # may mark the file system valid again without looking at that request.
+    sets_valid = [(f, n) for f in prog.fns_in_file(TF) for n in f.events("S")
+                  if T.last_field(n.ev["lhs"]) == ("ext2_super_block", "s_state") and store_sets_bits(n, "EXT2_VALID_FS")]
+    rep.floor("C11.l stores setting EXT2_VALID_FS in tune2fs.c", len(sets_valid), 1)
+    for i, (f, n) in enumerate(sets_valid):
+        ok = any(t is not None and "fsck_requested" in T.vars_in(a_) for t, a_ in control_lits(f, n))
+        rep.ob("C11.l", site(f, "file system marked valid only when no check was asked for#%d" % i), ok,
+               "`%s` (line %d) lies behind a test of fsck_requested" % (n.text()[:40], n.line))
+
+    # ------------------------------------------------------------------ C11.m inode tables grow inside the file system
+    # get_move_bitmaps() claims the blocks behind each group's inode table for the larger table.  The end of that range
+    # is compared with the size of the file system before any block of it is marked (the last group may be too small).
+    gmb = prog.fn("get_move_bitmaps", TF)
+    mk = [n for n in calls_to(gmb, "ext2fs_mark_block_bitmap2")]
+    rep.floor("C11.m marks in get_move_bitmaps", len(mk), 2)
+    lim = [gmb.block_end(b) for b in gmb.blocks if gmb.literal(b) and
+           any(cc.get("fn") == "ext2fs_blocks_count" for cc in T.calls(gmb.literal(b)[0]))]
+    for i, n in enumerate(mk):
+        rep.ob("C11.m", site(gmb, "range claimed for the larger table lies inside the file system#%d" % i),
+               bool(lim) and gmb.dominated_by(n, lim),
+               "a comparison with ext2fs_blocks_count() dominates `%s`" % n.text()[:40])
+
+    # ------------------------------------------------------------------ C11.n the user taken off a shared journal is this file system
+    # remove_journal_device() closes up the journal's list of users over the entry that goes.  The index it starts
+    # from comes out of a comparison of that entry with this file system's UUID (not: always the first one).
+    rjd = prog.fn("remove_journal_device", TF)
+    shifts = [n for n in calls_to(rjd, "memcpy", "memmove") if "s_users" in T.field_names(arg(n, 0) or {})]
+    rep.floor("C11.n closing-up copy in remove_journal_device", len(shifts), 1)
+    for i, n in enumerate(shifts):
+        iv = T.vars_in(arg(n, 0)) - {"jsb"}
+        cmp_ = []
+        for b in rjd.blocks:
+            lit = rjd.literal(b)
+            if not lit:
+                continue
+            for cc in T.calls(lit[0]):
+                if cc.get("fn") in ("memcmp", "uuid_compare") and any("s_uuid" in T.field_names(x) for x in cc.get("a", [])) and \
+                        any("s_users" in T.field_names(x) and (T.vars_in(x) & iv) for x in cc.get("a", [])):
+                    cmp_.append(rjd.block_end(b))
+        resets = [m for m in rjd.events("S") if T.path(m.ev["lhs"]) in iv and T.const(m.ev.get("rhs")) is not None]
+        ok = any(n in rjd.reach(rjd.after(c), avoid=resets) for c in cmp_)
+        rep.ob("C11.n", site(rjd, "list closed up from the entry that matches this file system's UUID#%d" % i), ok,
+               "a comparison of s_users[%s] with fs->super->s_uuid reaches `%s` without %s being reset: %d comparison(s)" %
+               ("/".join(sorted(iv)), n.text()[:30], "/".join(sorted(iv)), len(cmp_)))
+
 
 def _hurd_lit(a):
     return "EXT2_OS_HURD" in T.macros(a)
